@@ -476,7 +476,7 @@ fn emit_fn(out: &mut Value, req: &Value, sig: &Signature, block: &Block, impl_hd
     }
     // optional nested slice (N11): one inner statement becomes the body
     if let Some(anchor) = req["slice_stmt"].as_str() {
-        match norm::find_stmt(&b, anchor) {
+        match norm::find_stmt(&b, anchor, req["slice_nth"].as_u64().unwrap_or(1) as usize) {
             Some(st) => {
                 let st = match st {
                     Stmt::Expr(e, None) => Stmt::Expr(e, Some(Default::default())),
